@@ -6,12 +6,15 @@ from vf.gen import pick_weighted
 from props.C18 import parse_out
 
 ID = "C23"
-THEOREMS = ["C23_lookup_stable", "C23_snapshot_consistent", "C23_published_forever", "C23_no_leak"]
-MODEL_FILES = ["IndexPublish.v"]
+THEOREMS = ["C23_lookup_stable", "C23_snapshot_consistent", "C23_published_forever", "C23_no_leak",
+            "C23_refs_exact", "C23_refs_unclear_refuted"]
+MODEL_FILES = ["IndexPublish.v", "IdxRefs.v"]
 MODELLED = ("storage/filesystem/object.go: requireIndex (RLock check, singleflight, re-check, publish under Lock or close the loser's "
             "indexes), Reindex (populate, swap under Lock), packfileWriter's Notify (copy-on-grow append), findObjectInPackfile's snapshot "
             "of s.packs — as an interleaving model (Model/IndexPublish.v: every muI critical section one atomic step, everything else "
-            "split), with other instances adding packs / loose objects. NOT modelled, only exercised: freedom from data races in the Go "
+            "split), with other instances adding packs / loose objects; plumbing/format/idxfile/lazy_index.go lazyPrefixIter "
+            "(EntriesWithPrefix / Next with its eager release / Close) and plain readers on one internal/sharedfile SharedFile (refs, guard at "
+            "zero, ReleaseNow latch) under pool eviction — Model/IdxRefs.v, reference accounting exact in every interleaving. NOT modelled, only exercised: freedom from data races in the Go "
             "memory model, sharedfile / packhandle / fdpool descriptor sharing under pressure (C24), LazyIndex I/O, reference and index "
             "file reads; deletion of packs by another instance (repack) is outside the model")
 TRUSTED = [
@@ -20,17 +23,73 @@ TRUSTED = [
     "packs/loose objects, background readers of objects+references+index under fd pool capacities 0/1/2/default) with seeded jitter and "
     "compares the projected lookup answers with Model/IndexPublish.c23_run under a generated schedule",
     "thorough tier: the same harness built with `go build -race`; a reported DATA RACE is a failing case",
+    "reference accounting observed directly (hooks of build tag verif: LazyIndex.VerifIdxRefs/VerifRevRefs/VerifPinIdx, "
+    "ObjectStorage.VerifLazyIndexes): after every scenario no reference is left on any published .idx/.rev, and with one harness pin "
+    "per .idx every prefix search leaves exactly the pin; suite `iter` drives EntriesWithPrefix/Next/Close step by step and compares "
+    "answer + reference count with Model/IdxRefs.c23_iter_run",
 ]
 ASSUMPTIONS = ["other instances only add packs and loose objects while this instance reads (no concurrent repack/prune)",
                "Go's race detector and the schedules actually produced bound what is observed about data races: absence is not proved"]
-RULE = ("scenario = initial repository (<= 10 objects: loose set, <= 3 packs) + 3-9 threads (lookups by get/has/size of present / absent / "
-        "concurrently-added objects, Reindex, same-instance pack writer, external pack / loose writers) + 0-4 background readers + options "
-        "(pool 0/1/2/default, lazy / in-memory idx, LargeObjectThreshold, tiny cache) + a model schedule; non-trivial = at least two "
-        "lookups and one writer or Reindex; distinct by content")
+RULE = ("universe = 24 blobs whose ids share four fan-out buckets; scenario = initial repository (general: loose set + <= 3 packs; "
+        "multipack-prefix: 4-6 packs, lazy index, pool capacity 1/2/3) + 3-10 threads (lookups by get/has/size, prefix resolvers with 2-4 byte "
+        "prefixes of existing ids and near-miss prefixes that stop at a larger non-matching hash, Reindex, same-instance pack writer, external "
+        "pack / loose writers, external git repack) + background readers (objects, prefix searches, references, index) + options + a model "
+        "schedule; suite iter = (packs, pack, prefix of an own / near-miss / other-bucket / beyond-the-bucket kind, 0-2 pins, a script of "
+        "Next / Close incl. early, after exhaustion and repeated Close); non-trivial = at least two lookups and one writer or Reindex, resp. "
+        "an iterator that acquired a reference and >= 2 steps; distinct by content")
 LEVEL_NOTE = ("partial: the publication protocol is proved for all interleavings of the model; data-race freedom and descriptor-pressure "
               "behaviour are exercised (stress + race detector), not proved")
 
-NOBJ = 10
+NOBJ = 24
+BUCKETS = [0x3a, 0x3b, 0x7c, 0xe1]
+
+
+def _universe():
+    """the 24 blob ids of harness/cmd/c23 (same rule): six ids in each of four fan-out buckets"""
+    import hashlib
+    ids, count, i = [], {}, 0
+    while len(ids) < NOBJ:
+        data = (b"object-%d\n" % i) * (1 + i % 5)
+        h = hashlib.sha1(b"blob %d\0" % len(data) + data).digest()
+        i += 1
+        if h[0] not in BUCKETS or count.get(h[0], 0) >= NOBJ // len(BUCKETS):
+            continue
+        count[h[0]] = count.get(h[0], 0) + 1
+        ids.append(h)
+    return ids
+
+
+IDS = _universe()
+
+
+def prefix_of(k, n, miss):
+    p = bytearray(IDS[k][:n])
+    if miss:
+        p[n - 1] = (p[n - 1] - 1) % 256
+    return bytes(p)
+
+
+def miss_ok(k, n):
+    """the near-miss prefix of (k, n) is carried by no id of the universe"""
+    p = prefix_of(k, n, True)
+    return not any(h.startswith(p) for h in IDS)
+
+
+def iter_shape(mask, prefix):
+    """what LazyIndex.EntriesWithPrefix(prefix) does on the pack holding the objects of mask:
+    (acquires a reference?, matching entries, what follows them)"""
+    ids = sorted(IDS[k] for k in range(NOBJ) if mask >> k & 1)
+    bucket = [h for h in ids if h[0] == prefix[0]]
+    if not bucket:
+        return False, 0, "TEnd"
+    target = prefix + b"\0" * (20 - len(prefix))
+    rest = [h for h in bucket if h >= target]
+    if not rest:
+        return True, 0, "TBeyond"
+    m = 0
+    while m < len(rest) and rest[m].startswith(prefix):
+        m += 1
+    return True, m, ("TMismatch" if m < len(rest) else "TEnd")
 
 
 def rmask(rng, p):
@@ -45,6 +104,9 @@ def thread_coq(t):
     k = t["kind"]
     if k == "lookup":
         return "lookup %d%%N" % t["k"]
+    if k == "prefix":
+        # same visibility rule as a lookup (snapshot of the index + loose listing); a near-miss prefix = an object nobody stores
+        return "lookup %d%%N" % (63 if t["miss"] else t["k"])
     if k == "reindex":
         return "TReFlight"
     if k == "notify":
@@ -60,38 +122,52 @@ class Main(Suite):
     name = "main"
     go_cmd = "c23"
     coq_imports = "From GoGit Require Import Model.IndexPublish."
-    quick_n = 160
+    quick_n = 130
     thorough_n = 1500
 
     def gen(self, rng, n, tier):
         cases = []
         for i in range(n):
-            loose = rmask(rng, 0.2)
-            packs = sorted(set(m for m in (rmask(rng, 0.3) for _ in range(rng.randrange(0, 4))) if m))
+            # two repository shapes: the general one, and 4-6 packs read through the LAZY index under a pool of
+            # capacity 1..3 by prefix resolvers (2..4-byte prefixes, existing and near-miss) next to object readers
+            multi = rng.random() < 0.5
+            if multi:
+                loose = rmask(rng, 0.1)
+                packs = sorted(set(m for m in (rmask(rng, 0.35) for _ in range(rng.randrange(4, 7))) if m))
+            else:
+                loose = rmask(rng, 0.2)
+                packs = sorted(set(m for m in (rmask(rng, 0.3) for _ in range(rng.randrange(0, 4))) if m))
             init = loose
             for p in packs:
                 init |= p
+            present = [k for k in range(NOBJ) if init >> k & 1]
             threads = []
-            repack = rng.random() < 0.12          # a few scenarios: another process repacks (outside the model)
-            for _ in range(rng.randrange(3, 10)):
-                kind = pick_weighted(rng, [(6, "lookup"), (1, "reindex"), (1, "notify"), (1, "extpack"), (1, "extloose")])
+            repack = (not multi) and rng.random() < 0.12   # a few scenarios: another process repacks (outside the model)
+            for _ in range(rng.randrange(4, 11) if multi else rng.randrange(3, 10)):
+                kind = pick_weighted(rng, [(4, "lookup"), (5 if multi else 2, "prefix"), (1, "reindex"), (1, "notify"), (1, "extpack"), (1, "extloose")])
                 if kind == "extpack" and repack and not any(t["kind"] == "extrepack" for t in threads):
                     kind = "extrepack"
+                k = rng.choice(present) if present and rng.random() < 0.7 else rng.randrange(NOBJ)
                 if kind == "lookup":
-                    present = [k for k in range(NOBJ) if init >> k & 1]
-                    k = rng.choice(present) if present and rng.random() < 0.6 else rng.randrange(NOBJ)
                     threads.append({"kind": "lookup", "k": k, "op": rng.choice(["get", "has", "size"])})
+                elif kind == "prefix":
+                    nb = rng.choice([2, 2, 3, 4])
+                    miss = rng.random() < 0.45 and miss_ok(k, nb)
+                    threads.append({"kind": "prefix", "k": k, "n": nb, "miss": miss, "op": "prefix"})
                 elif kind in ("reindex", "extrepack"):
                     threads.append({"kind": kind})
                 elif kind in ("notify", "extpack"):
-                    threads.append({"kind": kind, "p": rmask(rng, 0.3) or 1})
+                    threads.append({"kind": kind, "p": rmask(rng, 0.2) or 1})
                 else:
                     threads.append({"kind": "extloose", "k": rng.randrange(NOBJ)})
             sched = [rng.randrange(len(threads)) for _ in range(rng.randrange(0, 40))]
-            cases.append({"bucket": "scenario", "loose": loose, "packs": packs, "threads": threads, "sched": sched,
-                          "bg": rng.choice([0, 1, 2, 4]), "jitter": rng.randrange(1 << 30),
-                          "opts": {"pool": rng.choice([-1, 0, 1, 1, 2]), "memidx": rng.random() < 0.4,
-                                   "lot": rng.choice([0, 0, 16]), "cache": rng.choice(["", "tiny"])}})
+            if multi:
+                opts = {"pool": rng.choice([1, 2, 3]), "memidx": False, "lot": rng.choice([0, 0, 16]), "cache": rng.choice(["", "tiny"])}
+            else:
+                opts = {"pool": rng.choice([-1, 0, 1, 1, 2]), "memidx": rng.random() < 0.4, "lot": rng.choice([0, 0, 16]), "cache": rng.choice(["", "tiny"])}
+            cases.append({"bucket": "multipack-prefix" if multi else "scenario", "loose": loose, "packs": packs, "threads": threads, "sched": sched,
+                          "bg": rng.choice([1, 2, 4]) if multi else rng.choice([0, 1, 2, 4]), "jitter": rng.randrange(1 << 30),
+                          "norefs": any(t["kind"] == "extrepack" for t in threads), "opts": opts})
         return cases
 
     def model_expr(self, c):
@@ -103,7 +179,7 @@ class Main(Suite):
 
     def nontrivial(self, c):
         ks = [t["kind"] for t in c["threads"]]
-        return ks.count("lookup") >= 2 and any(k != "lookup" for k in ks)
+        return ks.count("lookup") + ks.count("prefix") >= 2 and any(k not in ("lookup", "prefix") for k in ks)
 
     def oracle(self, ctx, cases, impl, model):
         """on the implementation alone: an object of the initial repository is found, an object nobody ever
@@ -128,12 +204,16 @@ class Main(Suite):
                     final |= t["p"]
                 elif t["kind"] == "extloose":
                     final |= 1 << t["k"]
-            looks = [t for t in c["threads"] if t["kind"] == "lookup"]
+            looks = [t for t in c["threads"] if t["kind"] in ("lookup", "prefix")]
             if len(outs) != 1 + len(looks):
                 fails[c["id"]] = "reply has %d answers for %d lookups" % (len(outs) - 1, len(looks))
                 continue
             for t, o in zip(looks, outs[1:]):
                 k = t["k"]
+                if t["kind"] == "prefix" and t["miss"]:
+                    if o != "false":
+                        fails[c["id"]] = "HashesWithPrefix(near-miss prefix of object %d, %d bytes) = %s" % (k, t["n"], o)
+                    continue
                 if init >> k & 1 and o != "true":
                     fails[c["id"]] = "%s of stored object %d = %s while other goroutines read / add packs" % (t["op"], k, o)
                 elif not (final >> k & 1) and o != "false":
@@ -190,4 +270,84 @@ class Main(Suite):
         return None
 
 
-SUITES = [Main()]
+class IterRefs(Suite):
+    """ONE goroutine drives LazyIndex.EntriesWithPrefix on one pack step by step (Next ... until and beyond EOF,
+    Close early / after exhaustion / repeatedly) while the harness holds 0-2 references: after every step the answer
+    and the reference count of the .idx must be the model's (Model/IdxRefs.v)"""
+    name = "iter"
+    go_cmd = "c23"
+    coq_imports = "From GoGit Require Import Model.IdxRefs."
+    quick_n = 120
+    thorough_n = 2500
+
+    def gen(self, rng, n, tier):
+        cases = []
+        while len(cases) < n:
+            packs = sorted(set(m for m in (rmask(rng, rng.choice([0.2, 0.4, 0.7])) for _ in range(rng.randrange(1, 4))) if m))
+            if not packs:
+                continue
+            pi = rng.randrange(len(packs))
+            k = rng.randrange(NOBJ)
+            nb = rng.choice([1, 2, 2, 3, 4, 20])
+            kind = rng.choice(["own", "own", "miss", "miss", "other-bucket", "beyond"])
+            if kind == "own":
+                prefix = prefix_of(k, nb, False)
+            elif kind == "miss":
+                prefix = prefix_of(k, max(nb, 2), True)
+            elif kind == "other-bucket":
+                prefix = bytes([rng.choice([0x00, 0x3c, 0xff, IDS[k][0]])]) + IDS[k][1:nb]
+            else:
+                prefix = bytes([IDS[k][0], 0xff, 0xff])[:max(2, min(nb, 3))]
+            acq, m, tl = iter_shape(packs[pi], prefix)
+            ops = []
+            for _ in range(rng.randrange(0, m + 4)):
+                ops.append("next")
+                if rng.random() < 0.12:
+                    ops.append("close")
+            ops += ["close"] * rng.randrange(0, 3) + ["next"] * rng.randrange(0, 2)
+            cases.append({"bucket": "iter-" + (tl if acq else "empty-bucket"), "mode": "iter", "packs": packs, "pi": pi, "prefix": prefix.hex(),
+                          "pins": rng.choice([0, 1, 1, 2]), "pool": rng.choice([-1, 1, 2, 3]), "ops": ops,
+                          "shape": [acq, m, tl]})
+        return cases
+
+    def model_expr(self, c):
+        acq, m, tl = c["shape"]
+        return "c23_iter_run %d %d %s %s %s" % (c["pins"], m, tl, "true" if acq else "false",
+                                                coq_list(["INext" if o == "next" else "IClose" for o in c["ops"]]))
+
+    def nontrivial(self, c):
+        return c["shape"][0] and len(c["ops"]) >= 2
+
+    def oracle(self, ctx, cases, impl, model):
+        """exact accounting on the implementation alone: whatever was done to the iterator, once it is closed (or its
+        run ended) only the harness pins remain; the count never drops below the pins"""
+        fails = {}
+        for c in cases:
+            r = impl.get(c["id"])
+            if r is None or r.get("panic"):
+                continue
+            try:
+                outs = parse_out(r["out"])
+            except Exception:
+                fails[c["id"]] = "unparsable reply"
+                continue
+            if not isinstance(outs, list) or outs[:1] == ["err"]:
+                fails[c["id"]] = "iterator could not be driven: %s / %s" % (r["out"], r.get("extra"))
+                continue
+            closed = False
+            for i, (o, step) in enumerate(zip(["made"] + c["ops"], outs)):
+                ans, refs = step[0], int(step[1])
+                if ans == "bad":
+                    fails[c["id"]] = "step %d (%s): unexpected answer" % (i, o)
+                    break
+                closed = closed or o == "close"
+                if refs < c["pins"]:
+                    fails[c["id"]] = "step %d (%s): the .idx holds %d references but the harness alone holds %d: a reference was released twice" % (i, o, refs, c["pins"])
+                    break
+                if closed and refs != c["pins"]:
+                    fails[c["id"]] = "step %d (%s): %d references after Close, want %d (the pins): leaked" % (i, o, refs, c["pins"])
+                    break
+        return fails
+
+
+SUITES = [Main(), IterRefs()]
